@@ -27,9 +27,6 @@ theorem C18_services_applied_iff (off : Int → Int) (w : Weekly) (now : Instant
   rw [← C18_contains_spec]
   simp [servicesApplied]
 
-/-- The weekday of local calendar day `D` (days since 1970-01-01). -/
-def dayWeekday (D : Int) : Nat := ((D + 4) % 7).toNat
-
 /-- A full-day range covers EVERY instant of that local day — however many
 hours the day has in that zone. -/
 theorem C18_full_day_covers (off : Int → Int) (w : Weekly) (D : Int) (t : Instant)
@@ -125,7 +122,7 @@ after a transition.  On 2024-03-31 in Berlin (midnight = 1711839600) the range
 09:00–10:00 missed 09:30 and held at 10:30; on 2024-10-27 (midnight =
 1729980000) the full-day range missed 23:30.  The specification says the
 opposite in all three cases. -/
-theorem C18_elapsed_form_counterexample :
+theorem C18_elapsed_form_differs :
     (containsElapsed berlin2024 sundayMorning 1711839600 ⟨1711870200, 0⟩ = false ∧
       InEffect berlin2024 sundayMorning ⟨1711870200, 0⟩) ∧
     (containsElapsed berlin2024 sundayMorning 1711839600 ⟨1711873800, 0⟩ = true ∧
@@ -231,9 +228,6 @@ example : Valid (fun _ => true) sundayMorning :=
   ⟨by decide, rfl, (Week.forall_get _ (fun r => validate r = .ok ())).mpr (by decide)⟩
 
 /-! ## The model satisfies the spec monitors, for all inputs -/
-
-/-- Acceptance as the driver reads it off a validation result. -/
-def accepted (r : Except VErr Unit) : Bool := match r with | .ok _ => true | .error _ => false
 
 theorem C18_model_meets_spec :
     (∀ (off : Int → Int) (w : Weekly) (t : Instant), specContainsOK off w t (contains off w t) = true) ∧
